@@ -87,6 +87,10 @@ M=[
                 .unwrap_or_default(),''','''            rm_clock: entry_opt
                 .map(|_| self.clock.clone())
                 .unwrap_or_default(),''','C07 C05'),
+ # magnitude class (needs replicas with a long past: aged starts)
+ ('N27 orswot apply Add: dedup compares truncated counters','src/orswot.rs','if self.clock.get(&dot.actor) >= dot.counter {','if self.clock.get(&dot.actor) as u32 >= dot.counter as u32 {','C04 C05 C16 C09'),
+ ('N28 list apply: dedup compares u16 counters','src/list.rs','if op_dot.counter <= self.clock.get(&op_dot.actor) {','if op_dot.counter as u16 <= self.clock.get(&op_dot.actor) as u16 {','C12 C13 C09 C16'),
+ ('N29 map apply Up: dedup compares u8 counters','src/map.rs',"if self.clock.get(&dot.actor) >= dot.counter {\n                    // we've seen this op already","if self.clock.get(&dot.actor) as u8 >= dot.counter as u8 {\n                    // we've seen this op already",'C05 C09 C16 C01'),
 ]
 sel=sys.argv[1:]
 allp=os.environ.get('ALLPROPS')
